@@ -11,10 +11,15 @@
     style the full statement is false of the code -- [C01_esc_refuted] gives the
     witnesses (classes esc-expanded, esc-amp-last of known_findings.txt) -- and
     outside those classes it is carried by the correspondence check only.
-    The expansion passes enter [C01_plan_quoted] as a parameter that must be
-    inert on quoted tokens; their model belongs to C10-C12. *)
+    [C01_plan_full] is the whole of CommandLine::from_line (tokenizer, the
+    real expansion passes of Model/Expand.v, planner) on the property's quoted
+    domain: single-quoted texts, and double-quoted texts free of dollar and
+    backquote ([calm_qarg]); [C01_plan_quoted] is the older form with the
+    expansion passes as a parameter. *)
 From Cicada Require Import Base.Chars Base.Tag Model.Tokenizer Model.Redirect Model.Cmds
   Proofs.TokenizerProofs Proofs.RedirectProofs Proofs.ListExecProofs Proofs.CmdsProofs.
+From Cicada Require Import Model.Expand Model.FullPlan Proofs.C13Proofs Proofs.C01Full.
+From Cicada Require Proofs.ExpandInert.
 
 Theorem C01_tokenize : forall cmd (args : list (nat * qarg)),
   plain_word cmd = true -> forallb arith_body cmd = false ->
@@ -28,6 +33,17 @@ Theorem C01_plan_quoted : forall (expand : list token -> list token) cmd (args :
   plan_tokens (expand (parse_line (render_cmd cmd args))) =
   inl (mkcl [mkc ((TNone, cmd) :: map (fun '(_, a) => tok_of_qarg a) args) [] None] [] false).
 Proof. exact plan_line_quoted. Qed.
+
+(** text in, plan out, with the real expansion passes: for every world (variables,
+    aliases, glob and command oracles), every fuel, every plain command word that is
+    not an alias, and every list of quoted arguments *)
+Theorem C01_plan_full : forall W fuel cmd (args : list (nat * qarg)),
+  plain_word cmd = true -> forallb arith_body cmd = false -> split_env cmd = None ->
+  ExpandInert.cmd_ok W cmd ->
+  forallb (fun '(_, a) => wf_qarg a) args = true -> Forall (fun '(_, a) => calm_qarg a) args ->
+  plan W fuel (render_cmd cmd args)
+  = Ok (inl (mkcl [mkc ((TNone, cmd) :: map (fun '(_, a) => tok_of_qarg a) args) [] None] [] false)).
+Proof. exact C01Full.C01_plan_full. Qed.
 
 (** whatever the quoted tokens hold, the passes after expansion plan one command *)
 Theorem C01_post_passes : forall cmd l,
@@ -73,6 +89,7 @@ Proof. vm_compute. repeat split. Qed.
 
 Print Assumptions C01_tokenize.
 Print Assumptions C01_plan_quoted.
+Print Assumptions C01_plan_full.
 Print Assumptions C01_post_passes.
 Print Assumptions C01_split.
 Print Assumptions C01_esc_refuted.
